@@ -88,6 +88,17 @@ func c09Pair(seed uint64, aligned bool) *lib.Pair {
 	p.New.PutFile("dup-src.bin", p.Old.E["dup-src.bin"].Data)
 	p.New.PutFile("dup/copy1.bin", p.Old.E["dup-src.bin"].Data)
 	p.New.PutFile("dup/copy2.bin", p.Old.E["dup-src.bin"].Data)
+	// two old files whose paths differ only by letter case (legal here), both reused; and a new file that starts
+	// with the first blocks of the old file that was copied whole right before it (same old file twice in a row,
+	// the second time from block 0)
+	p.Old.PutFile("assets/Level.dat", rb(lib.BS+int64(r.Range(1, 3000))))
+	p.Old.PutFile("assets/level.dat", rb(int64(r.Range(100, 3000))))
+	p.New.PutFile("assets/Level.dat", p.Old.E["assets/Level.dat"].Data)
+	p.New.PutFile("assets/level.dat", p.Old.E["assets/level.dat"].Data)
+	kept := rb(3*lib.BS + int64(r.Range(1, 3000)))
+	p.Old.PutFile("kept-then-prefix.bin", kept)
+	p.New.PutFile("kept-then-prefix.bin", kept)
+	p.New.PutFile("kept-then-prefix.bin.more", append(append([]byte(nil), kept[:2*lib.BS]...), rb(5000)...))
 	// empty old file kept; a file the patch does not reference; brand-new data
 	p.Old.PutFile("empty.bin", nil)
 	p.New.PutFile("empty.bin", nil)
@@ -97,7 +108,8 @@ func c09Pair(seed uint64, aligned bool) *lib.Pair {
 }
 
 var c09Reuse = map[string]string{"ranged.bin": "block-range|bsdiff", "copy-64k.bin": "whole-file-aligned", "copy-128k.bin": "whole-file-aligned",
-	"copy-odd.bin": "whole-file-unaligned", "copy-small.bin": "whole-file-unaligned", "dup-src.bin": "whole-file-duplicated", "swapped-halves.bin": "block-range|bsdiff", "shifted.bin": "block-range|bsdiff", "aaa-zerotail.bin": "whole-file-zerotail", "twin1.bin": "whole-file-twin", "twin2.bin": "whole-file-twin", "periodic.bin": "whole-file-periodic", "empty.bin": "empty", "unreferenced.bin": "unreferenced"}
+	"copy-odd.bin": "whole-file-unaligned", "copy-small.bin": "whole-file-unaligned", "dup-src.bin": "whole-file-duplicated", "swapped-halves.bin": "block-range|bsdiff", "shifted.bin": "block-range|bsdiff", "aaa-zerotail.bin": "whole-file-zerotail", "twin1.bin": "whole-file-twin", "twin2.bin": "whole-file-twin", "periodic.bin": "whole-file-periodic", "empty.bin": "empty", "unreferenced.bin": "unreferenced",
+	"assets/Level.dat": "whole-file-casetwin", "assets/level.dat": "whole-file-casetwin", "kept-then-prefix.bin": "whole-file+block-range"}
 
 func c09Damages(p *lib.Pair) []lib.Damage {
 	var out []lib.Damage
@@ -289,7 +301,7 @@ func init() {
 	lib.Register(&lib.Property{
 		ID:          "C09",
 		Level:       "fault_enumeration",
-		Rule:        "pairs in which the patch reuses old data in every way (block ranges in the middle of a large file >= 3 blocks before its end / bsdiff series in the optimized patch; whole-file copies of files of exactly 64 KiB, 128 KiB, unaligned sizes, < 1 block; an empty file; a file the patch does not reference); after diffing, the old tree gets one damage from the boundary list per case (bit flips at first/last byte of every block and in reused/unused blocks, truncation to {0,1,every block boundary ±1,size-1}, extension by {1,5,up to the boundary ±1,1 block,2 blocks}, fill of the empty file, deletion) or none; plus, per pair, a signature that cannot be loaded (Open fails / stream truncated inside the hashes / garbage) with and without a bit flip in a reused block; applied with patcher + fresh bowl whose target pool is pwr.NewSafeKeeper over the signature of the old build as written by wharf. Oracle: error OR output tree == new build; undamaged: no error AND equal. distinct = distinct (reuse kind, damage class, boundary class, optimized)",
+		Rule:        "pairs in which the patch reuses old data in every way (block ranges in the middle of a large file >= 3 blocks before its end / bsdiff series in the optimized patch; whole-file copies of files of exactly 64 KiB, 128 KiB, unaligned sizes, < 1 block; an empty file; a file the patch does not reference; two old files whose paths differ only by case; a kept file followed by a new file starting with its first blocks); after diffing, the old tree gets one damage from the boundary list per case (bit flips at first/last byte of every block and in reused/unused blocks, truncation to {0,1,every block boundary ±1,size-1}, extension by {1,5,up to the boundary ±1,1 block,2 blocks}, fill of the empty file, deletion) or none; plus, per pair, a signature that cannot be loaded (Open fails / stream truncated inside the hashes / garbage) with and without a bit flip in a reused block; applied with patcher + fresh bowl whose target pool is pwr.NewSafeKeeper over the signature of the old build as written by wharf. Oracle: error OR output tree == new build; undamaged: no error AND equal. distinct = distinct (reuse kind, damage class, boundary class, optimized)",
 		Assumptions: []string{"the safekeeper is wired the way butler wires it: it is both the patcher's target pool and the fresh bowl's TargetPool"},
 		Cases:       c09Cases,
 		Run:         c09Run,
